@@ -13,12 +13,25 @@ package raft
 // switch to pipelining are the library's. A run ends when the first request written by the
 // pipeline writer has been answered, when replicate returns, or when a bound is hit (number
 // of exchanges, watchdog) - a loop that spins is reported, it does not hang the harness.
+//
+// With VProbeCfg.PipelineEnd set the run goes on INTO the pipelining phase: the harness keeps
+// answering the requests of the pipeline writer goroutine (PipelineExtra further ones after the
+// first) and then ends the pipeline through one of the exits of its reader: stop from the
+// leader (with or without a response outstanding), a failing Read (optionally while the writer
+// goroutine is held between the header write and the entries write of its next request), a
+// staleTerm answer, a mismatch answer (back to probing, stopped when pipelining again). The
+// report says whether replicate() returned, which goroutines started by it are still alive,
+// who closed the connection and whether conn.rwc was cleared (what runLoop relies on). While
+// replicate's goroutines run, the hook reads replication fields only on the goroutine that
+// owns them (the pipeline writer never reads matchIndex), so that a race report of the race
+// detector is about the library.
 // Nothing here changes behaviour of the library.
 
 import (
 	"bufio"
 	"bytes"
 	"encoding/json"
+	"fmt"
 	"io"
 	"runtime"
 	"strings"
@@ -36,13 +49,22 @@ type VProbeReq struct {
 	Install   *VInstallReq `json:"install,omitempty"`
 	// St is the replication's state at the moment the request was complete (taken on the
 	// goroutine that wrote it).
+	// For a pipelined request other than the first of its pipeline, St.MatchIndex is NOT read from the
+	// replication (the reader goroutine owns it): RunProbe fills in the index acknowledged so far.
 	St  VReplState `json:"st"`
 	Bad string     `json:"bad,omitempty"` // framing problem seen while decoding
+	// Session: number of the pipeline this request belongs to (1, 2, ...; 0: probe phase). PipeSeq: number
+	// of the pipelined request over the whole run (1, 2, ...). Ending: the answer to this request is the
+	// one that shall end the pipeline (VProbeCfg.PipelineEnd): the harness supplies eof / staleTerm /
+	// a mismatch (kind "none": nothing is delivered).
+	Session int  `json:"session,omitempty"`
+	PipeSeq int  `json:"pipeSeq,omitempty"`
+	Ending  bool `json:"ending,omitempty"`
 }
 
 // VProbeResp is what the harness lets the loop read.
 type VProbeResp struct {
-	Kind         string `json:"kind"` // append | install | eof (connection dropped, nothing to read)
+	Kind         string `json:"kind"` // append | install | eof (connection dropped, nothing to read) | none (no answer is delivered)
 	Term         uint64 `json:"term"`
 	Result       uint64 `json:"result"`
 	LastLogIndex uint64 `json:"lastLogIndex"`
@@ -59,6 +81,53 @@ type VProbeCfg struct {
 	HbTimeout    time.Duration // replication.hbTimeout for the run (drain timeouts are hbTimeout/2)
 	MaxExchanges int           // the run is stopped when the loop writes more requests than this
 	Watchdog     time.Duration // the run is stopped when neither a request nor the end shows up for so long
+	// PipelineEnd "" (default): the run ends when the first pipelined request has been answered.
+	// Otherwise PipelineExtra further pipelined requests are answered, then the pipeline is ended:
+	//   stop (also: leaderUpdate, heartbeat - the difference is in what the harness does between requests):
+	//                 close stopCh after pipelined request 1+PipelineExtra was answered
+	//   stopDrain     close stopCh when pipelined request 2+PipelineExtra has been written, BEFORE it is answered
+	//                 (answer kind "none": never answered - the drain of the reader times out)
+	//   readErr       the answer to pipelined request 2+PipelineExtra is a failing Read
+	//   readErrPaused the same, but the pipeline writer is first held right after the header Write of its NEXT
+	//                 request returned (the harness makes it send one by a leader update with new entries) and
+	//                 released only after the reader closed the connection
+	//   stale         the answer to pipelined request 2+PipelineExtra is staleTerm
+	//   mismatch      ... is prevEntryNotFound/prevTermMismatch: replicate goes back to probing; stopCh is closed
+	//                 when the first request of the next pipeline has been answered
+	//   stopHeld      (exploration, not part of the default mix) pipelined request 2+PipelineExtra is left waiting
+	//                 for its answer, the next request is written and never answered, the writer is held after the
+	//                 header of the one after that; then stopCh is closed and the waiting answer delivered: when the
+	//                 reader takes the stop, its drain (drainRespsTimeout) runs into the timeout while the writer
+	//                 goroutine is still alive
+	// The answers are the harness' (VProbeReq.Ending marks the request). When no further request shows up
+	// (a nonvoter gets no heartbeats) the run is ended by stop after Idle (default 6*HbTimeout).
+	PipelineExtra int
+	PipelineEnd   string
+	Idle          time.Duration
+}
+
+// VPipeReport: how an episode that went into the pipeline ended.
+type VPipeReport struct {
+	End      string `json:"end"`     // VProbeCfg.PipelineEnd
+	Applied  string `json:"applied"` // what was done: stop | stopDrain | readErr | readErr+held | stale | mismatch | stop(idle) | "" (it never came to it)
+	Sessions int    `json:"sessions"`
+	Requests int    `json:"requests"` // pipelined requests answered
+	// Returned: replicate() returned (VProbeReport.Err is its error class) within the bounds
+	Returned bool `json:"returned"`
+	// Left: goroutines started by replicate's goroutine (pipeline writer, drainer) still alive when the report was
+	// made (polled for up to the watchdog after replicate returned)
+	Left []string `json:"left"`
+	// hand-over of the connection: who closed it; conn.rwc == nil after the return
+	ClosedByReplicate bool `json:"closedByReplicate"`
+	ClosedByHarness   bool `json:"closedByHarness"` // the harness closed it in place of a read deadline (reader blocked, stop pending)
+	RwcNil            bool `json:"rwcNil"`
+	// Held: the pipeline writer was held after a header Write; Resumed: it came back to the connection afterwards
+	// (it has entries to write; a writer that vanishes in between panicked and swallowed it)
+	Held    bool `json:"held"`
+	Resumed bool `json:"resumed"`
+	// StValid: VProbeReport.St was read (replicate's return is ordered after the end of its writer goroutine).
+	// When false the caller must not read the replication's state either (State, ViewStale, another RunProbe).
+	StValid bool `json:"stValid"`
 }
 
 // VProbeReport is what one run of replicate did.
@@ -75,6 +144,9 @@ type VProbeReport struct {
 	// Unanswered: the request that exceeded MaxExchanges (not answered), if any
 	Unanswered *VProbeReq `json:"unanswered,omitempty"`
 	Extra      int        `json:"extra"` // requests written after the run's last answered request
+	// NoteAt[i]: how many exchanges had been answered when Notes[i] was received
+	NoteAt   []int        `json:"noteAt"`
+	Pipeline *VPipeReport `json:"pipeline,omitempty"`
 }
 
 // VLeaderUpd is the content of a leaderUpdate (Lean: Repl.onLeaderUpdate's arguments).
@@ -97,10 +169,23 @@ type verifScriptConn struct {
 	cur     []byte
 	closed  chan struct{}
 	closeMu sync.Once
+
+	// pipeline bookkeeping (under mu)
+	pipeRun   int  // pipelined requests completed since the last request of the probe loop
+	byHarness bool // Close was called by the harness
+	byLib     bool // Close was called through the net.Conn (replicate)
+	armed     bool // hold the pipeline writer after its next Write that leaves a request incomplete
+	wasHeld   bool // ... done
+	let       bool // ... and released
+	resumed   bool // the writer called the connection again after the release
+	held      chan struct{}
+	release   chan struct{}
+	relOnce   sync.Once
 }
 
 func newVerifScriptConn(v *VerifRepl) *verifScriptConn {
-	return &verifScriptConn{v: v, notify: make(chan struct{}, 1), in: make(chan []byte, 64), closed: make(chan struct{})}
+	return &verifScriptConn{v: v, notify: make(chan struct{}, 1), in: make(chan []byte, 64), closed: make(chan struct{}),
+		held: make(chan struct{}), release: make(chan struct{})}
 }
 
 // verifInPipelineWriter: is the caller running inside a closure of replication.replicate
@@ -179,12 +264,13 @@ func (c *verifScriptConn) parse() (q VProbeReq, used int, ok bool) {
 }
 
 func (c *verifScriptConn) Write(b []byte) (int, error) {
+	pipelined := verifInPipelineWriter()
+	c.noteResumed(pipelined)
 	select {
 	case <-c.closed:
 		return 0, io.ErrClosedPipe
 	default:
 	}
-	pipelined := verifInPipelineWriter()
 	c.mu.Lock()
 	c.wbuf = append(c.wbuf, b...)
 	got := false
@@ -195,9 +281,22 @@ func (c *verifScriptConn) Write(b []byte) (int, error) {
 		}
 		c.wbuf = c.wbuf[used:]
 		q.Pipelined = pipelined
-		q.St = c.v.State()
+		if pipelined {
+			// the writer goroutine owns nextIndex, the view, the request; matchIndex is the reader's - except for
+			// the first request of a pipeline (the reader waits for its result)
+			q.St = c.v.stateOf(c.pipeRun == 0)
+			c.pipeRun++
+		} else {
+			q.St = c.v.State()
+			c.pipeRun = 0
+		}
 		c.events = append(c.events, q)
 		got = true
+	}
+	// hold the writer "after the header": this Write has succeeded, the request is not complete yet
+	hold := pipelined && c.armed && len(c.wbuf) > 0
+	if hold {
+		c.armed, c.wasHeld = false, true
 	}
 	c.mu.Unlock()
 	if got {
@@ -206,8 +305,50 @@ func (c *verifScriptConn) Write(b []byte) (int, error) {
 		default:
 		}
 	}
+	if hold {
+		close(c.held)
+		<-c.release
+		c.mu.Lock()
+		c.let = true
+		c.mu.Unlock()
+	}
 	return len(b), nil
 }
+
+// noteResumed: a writer that was held and released is back at the connection
+func (c *verifScriptConn) noteResumed(pipelined bool) {
+	c.mu.Lock()
+	if c.let && pipelined {
+		c.resumed = true
+	}
+	c.mu.Unlock()
+}
+
+func (c *verifScriptConn) SetWriteDeadline(t time.Time) error {
+	c.mu.Lock()
+	check := c.let && !c.resumed
+	c.mu.Unlock()
+	if check {
+		c.noteResumed(verifInPipelineWriter())
+	}
+	return nil
+}
+
+func (c *verifScriptConn) arm() {
+	c.mu.Lock()
+	c.armed = true
+	c.mu.Unlock()
+}
+
+// disarm: true when the writer is not (and will not be) held
+func (c *verifScriptConn) disarm() bool {
+	c.mu.Lock()
+	defer c.mu.Unlock()
+	c.armed = false
+	return !c.wasHeld
+}
+
+func (c *verifScriptConn) letGo() { c.relOnce.Do(func() { close(c.release) }) }
 
 // Read blocks until the harness supplies bytes; deadlines are ignored (the harness bounds the run).
 func (c *verifScriptConn) Read(b []byte) (int, error) {
@@ -234,9 +375,21 @@ func (c *verifScriptConn) Read(b []byte) (int, error) {
 	}
 }
 
+// Close through the net.Conn: replicate closed the connection.
 func (c *verifScriptConn) Close() error {
+	c.mu.Lock()
+	c.byLib = true
+	c.mu.Unlock()
 	c.closeMu.Do(func() { close(c.closed) })
 	return nil
+}
+
+// harnessClose stands for the read deadline of the real connection.
+func (c *verifScriptConn) harnessClose() {
+	c.mu.Lock()
+	c.byHarness = true
+	c.mu.Unlock()
+	c.closeMu.Do(func() { close(c.closed) })
 }
 
 func (c *verifScriptConn) take() (VProbeReq, bool) {
@@ -287,11 +440,67 @@ func verifEncodeResp(p VProbeResp) []byte {
 	return b.Bytes()
 }
 
+// stateOf is State() for the goroutine that owns everything but (withMatch=false) matchIndex.
+func (v *VerifRepl) stateOf(withMatch bool) VReplState {
+	r := v.r
+	st := VReplState{NextIndex: r.nextIndex, LdrLastIndex: r.ldrLastIndex,
+		LdrCommit: v.req.ldrCommitIndex, Term: v.req.term, Src: v.req.src, Voter: r.node.Voter}
+	if withMatch {
+		st.MatchIndex = r.matchIndex
+	}
+	if r.log != nil {
+		st.ViewPrev, st.ViewLast = r.log.PrevIndex(), r.log.LastIndex()
+	}
+	return st
+}
+
+// verifGoID: the id of the calling goroutine (as printed in stack dumps)
+func verifGoID() uint64 {
+	buf := make([]byte, 64)
+	n := runtime.Stack(buf, false)
+	var id uint64
+	_, _ = fmt.Sscanf(string(buf[:n]), "goroutine %d ", &id)
+	return id
+}
+
+// verifStartedBy lists the functions of the live goroutines that were started ("created by ... in goroutine N")
+// by goroutine gid from within replicate (the pipeline writer, the drainer of drainRespsTimeout).
+func verifStartedBy(gid uint64) []string {
+	out := []string{}
+	if gid == 0 {
+		return out
+	}
+	buf := make([]byte, 1<<20)
+	for {
+		n := runtime.Stack(buf, true)
+		if n < len(buf) {
+			buf = buf[:n]
+			break
+		}
+		buf = make([]byte, 2*len(buf))
+	}
+	suffix := fmt.Sprintf(" in goroutine %d", gid)
+	for _, g := range strings.Split(string(buf), "\n\n") {
+		for _, ln := range strings.Split(g, "\n") {
+			if strings.HasPrefix(ln, "created by ") && strings.HasSuffix(ln, suffix) && strings.Contains(ln, "(*replication).replicate") {
+				fn := strings.TrimSuffix(strings.TrimPrefix(ln, "created by "), suffix)
+				if i := strings.LastIndex(fn, "/"); i >= 0 {
+					fn = fn[i+1:]
+				}
+				out = append(out, fn)
+			}
+		}
+	}
+	return out
+}
+
 // RunProbe runs the real replicate() on this replication until its first pipelined request has been
-// answered, it returns, or a bound is hit. answer is called on the caller's goroutine, while the loop
-// is blocked reading the response; it may move the leader and call PushLeaderUpdate.
+// answered (or, with cfg.PipelineEnd, until the pipeline has been ended the chosen way), it returns, or a
+// bound is hit. answer is called on the caller's goroutine, while the loop is blocked reading the response
+// (in the pipeline: while the reader is, the writer goroutine runs); it may move the leader and call
+// PushLeaderUpdate.
 func (v *VerifRepl) RunProbe(cfg VProbeCfg, answer func(k int, q VProbeReq) VProbeResp) VProbeReport {
-	rep := VProbeReport{Exchanges: []VProbeExchange{}, Notes: []VReplNote{}}
+	rep := VProbeReport{Exchanges: []VProbeExchange{}, Notes: []VReplNote{}, NoteAt: []int{}}
 	r := v.r
 	if cfg.HbTimeout > 0 {
 		r.hbTimeout = cfg.HbTimeout
@@ -299,12 +508,30 @@ func (v *VerifRepl) RunProbe(cfg VProbeCfg, answer func(k int, q VProbeReq) VPro
 	if cfg.Watchdog <= 0 {
 		cfg.Watchdog = 2 * time.Second
 	}
+	if cfg.Idle <= 0 {
+		cfg.Idle = 6 * r.hbTimeout
+	}
+	ext := cfg.PipelineEnd != ""
+	var pr *VPipeReport
+	if ext {
+		pr = &VPipeReport{End: cfg.PipelineEnd, Left: []string{}}
+		rep.Pipeline = pr
+	}
+	endKind := cfg.PipelineEnd
+	switch endKind {
+	case "", "stopDrain", "stopHeld", "readErr", "readErrPaused", "stale", "mismatch":
+	default:
+		endKind = "stop" // stop, leaderUpdate, heartbeat
+	}
 	r.stopCh = make(chan struct{}) // a previous run closed it
 	sc := newVerifScriptConn(v)
+	defer sc.letGo() // whatever happens, a held writer is released
 	v.c = &conn{rwc: sc, bufr: bufio.NewReader(sc), bufw: bufio.NewWriter(sc)}
 	done := make(chan struct{})
+	gidCh := make(chan uint64, 1)
 	var errClass, panicClass string
 	go func() {
+		gidCh <- verifGoID()
 		defer close(done)
 		defer func() {
 			if p := recover(); p != nil {
@@ -313,28 +540,55 @@ func (v *VerifRepl) RunProbe(cfg VProbeCfg, answer func(k int, q VProbeReq) VPro
 		}()
 		errClass = verifErrClass(r.replicate(v.c, v.req))
 	}()
+	gid := <-gidCh
+	addNote := func(u replUpdate) {
+		rep.Notes = append(rep.Notes, verifNote(u))
+		rep.NoteAt = append(rep.NoteAt, len(rep.Exchanges))
+	}
 	collect := func() {
 		for {
 			select {
 			case u := <-v.upCh:
-				rep.Notes = append(rep.Notes, verifNote(u))
+				addNote(u)
 				continue
 			default:
 			}
 			return
 		}
 	}
+	stopped := false
+	stop := func() {
+		if !stopped {
+			stopped = true
+			close(r.stopCh)
+		}
+	}
 	finished := false
+	inPipe := false
+	session, pipeSeq := 0, 0
+	endSession := 0     // the pipeline in which the ending answer was given
+	var expMatch uint64 // the index acknowledged so far (what matchIndex is once the reader has handled the last answer)
 	for rep.End == "" {
 		q, ok := sc.take()
 		if !ok {
+			wait := cfg.Watchdog
+			idle := ext && inPipe && pr.Applied == ""
+			if idle && cfg.Idle < wait {
+				wait = cfg.Idle
+			}
 			select {
 			case <-sc.notify:
 				continue
 			case <-done:
 				rep.End, finished = "returned", true
-			case <-time.After(cfg.Watchdog):
-				rep.End = "watchdog"
+			case <-time.After(wait):
+				if idle {
+					// nothing more is coming (a nonvoter gets no heartbeats, the leader is quiet)
+					pr.Applied = "stop(idle)"
+					rep.End = "pipelined"
+				} else {
+					rep.End = "watchdog"
+				}
 			}
 			continue
 		}
@@ -343,40 +597,168 @@ func (v *VerifRepl) RunProbe(cfg VProbeCfg, answer func(k int, q VProbeReq) VPro
 			break
 		}
 		k := len(rep.Exchanges)
+		if q.Pipelined {
+			if !inPipe {
+				inPipe = true
+				session++
+				expMatch = q.St.MatchIndex // first request of a pipeline: read on the writer goroutine while the reader waits
+			} else {
+				q.St.MatchIndex = expMatch
+			}
+			pipeSeq++
+			q.Session, q.PipeSeq = session, pipeSeq
+			if ext && endKind != "stop" && pr.Applied == "" && pipeSeq == cfg.PipelineExtra+2 {
+				q.Ending = true
+			}
+		} else {
+			inPipe = false
+		}
 		collect() // everything the loop told the leader before it wrote this request
+		if q.Ending {
+			switch endKind {
+			case "readErrPaused":
+				sc.arm() // answer() lets the leader grow and notifies: the writer starts its next request
+			case "stopDrain":
+				stop()
+			}
+		}
 		p := answer(k, q)
 		rep.Exchanges = append(rep.Exchanges, VProbeExchange{q, p})
-		sc.in <- verifEncodeResp(p)
+		if q.Ending {
+			pr.Applied, endSession = endKind, session
+			if endKind == "readErrPaused" {
+				pr.Applied = "readErr"
+				select {
+				case <-sc.held:
+					pr.Held = true
+					pr.Applied = "readErr+held"
+				case <-done:
+				case <-time.After(4 * r.hbTimeout):
+					if !sc.disarm() {
+						<-sc.held
+						pr.Held = true
+						pr.Applied = "readErr+held"
+					}
+				}
+			}
+		}
+		if q.Ending && endKind == "stopHeld" {
+			// answer() made the writer send the next request: take it, leave it unanswered, and let answer() make the
+			// writer start one more, in which it is held
+			var q2 VProbeReq
+			got := false
+			limit := time.After(4 * r.hbTimeout)
+			for !got {
+				if q2, got = sc.take(); got {
+					break
+				}
+				select {
+				case <-sc.notify:
+					continue
+				case <-done:
+				case <-limit:
+				}
+				break
+			}
+			if got {
+				pipeSeq++
+				q2.Session, q2.PipeSeq, q2.Ending = session, pipeSeq, true
+				q2.St.MatchIndex = expMatch
+				sc.arm()
+				_ = answer(k+1, q2)
+				rep.Exchanges = append(rep.Exchanges, VProbeExchange{q2, VProbeResp{Kind: "none"}})
+				select {
+				case <-sc.held:
+					pr.Held = true
+					pr.Applied = "stopHeld+held"
+				case <-done:
+				case <-time.After(4 * r.hbTimeout):
+					if !sc.disarm() {
+						<-sc.held
+						pr.Held = true
+						pr.Applied = "stopHeld+held"
+					}
+				}
+			}
+			stop()
+		}
+		if p.Kind != "none" {
+			sc.in <- verifEncodeResp(p)
+		}
+		if q.Ending && pr.Held {
+			// the reader's Read has failed: when it has closed the connection (and is waiting for the writer to
+			// finish), the writer may go on - with the entries of the request whose header it wrote
+			limit := cfg.Watchdog
+			if endKind == "stopHeld" {
+				limit = 4 * r.hbTimeout // the reader may be blocked in a Read of its main loop: its "deadline"
+			}
+			select {
+			case <-sc.closed:
+				time.Sleep(2 * time.Millisecond)
+			case <-done:
+			case <-time.After(limit):
+				if endKind == "stopHeld" {
+					sc.harnessClose()
+					time.Sleep(2 * time.Millisecond)
+				}
+			}
+			sc.letGo()
+		}
 		if q.Pipelined {
+			if pr != nil {
+				pr.Requests++
+			}
 			// the acknowledgement of new entries is reported to the leader: wait for that note, so that
-			// closing stopCh cannot race with notifyLdr
+			// closing stopCh cannot race with notifyLdr. Once the ending is under way the reader only drains the
+			// answers of its pipeline (or the note races with the stop): nothing is counted as acknowledged then.
+			ending := pr != nil && pr.Applied != "" && session == endSession
 			if q.Append != nil && p.Kind == "append" && rpcResult(p.Result) == success &&
-				q.Append.PrevLogIndex+uint64(len(q.Append.Entries)) > q.St.MatchIndex {
+				q.Append.PrevLogIndex+uint64(len(q.Append.Entries)) > expMatch && (!ending || q.Ending) {
+				if !ending {
+					expMatch = q.Append.PrevLogIndex + uint64(len(q.Append.Entries))
+				}
 				select {
 				case u := <-v.upCh:
-					rep.Notes = append(rep.Notes, verifNote(u))
+					addNote(u)
 				case <-done:
 				case <-time.After(cfg.Watchdog):
 				}
 			}
-			rep.End = "pipelined"
+			switch {
+			case !ext:
+				rep.End = "pipelined"
+			case endKind == "stop" && pipeSeq >= cfg.PipelineExtra+1:
+				pr.Applied = "stop"
+				rep.End = "pipelined"
+			case endKind == "mismatch" && pr.Applied != "" && session > endSession:
+				rep.End = "pipelined" // pipelining again after the probe that followed the mismatch
+			case (endKind == "stopDrain" || endKind == "stopHeld") && q.Ending:
+				rep.End = "pipelined" // stopCh is closed already; an unanswered request runs into the "deadline" below
+			}
 		}
 	}
+	if pr != nil {
+		pr.Sessions = session
+	}
 	if !finished {
-		close(r.stopCh)
+		stop()
 		// a loop blocked reading the response of a further pipelined request does not look at stopCh: the
 		// real connection would time out after 2*hbTimeout, here the connection is closed
 		select {
 		case <-done:
 		case <-time.After(4 * r.hbTimeout):
 			// unblock a reader, then give up
-			_ = sc.Close()
+			sc.harnessClose()
 			select {
 			case <-done:
 			case <-time.After(cfg.Watchdog):
 				rep.End = rep.End + "+stuck"
 				collect()
 				rep.Extra += sc.pending()
+				sc.letGo()
+				if pr != nil {
+					pr.Left = verifStartedBy(gid)
+				}
 				return rep
 			}
 		}
@@ -384,7 +766,39 @@ func (v *VerifRepl) RunProbe(cfg VProbeCfg, answer func(k int, q VProbeReq) VPro
 	collect()
 	rep.Extra += sc.pending()
 	rep.Err, rep.Panic = errClass, panicClass
-	rep.St = v.State()
+	if pr == nil {
+		rep.St = v.State()
+		return rep
+	}
+	// replicate returned: the goroutines it started must be gone (they are told to stop before it returns,
+	// some exits do not wait for them)
+	pr.Returned = true
+	sc.letGo()
+	deadline := time.Now().Add(cfg.Watchdog)
+	for pause := 200 * time.Microsecond; ; pause *= 2 {
+		pr.Left = verifStartedBy(gid)
+		if len(pr.Left) == 0 || time.Now().After(deadline) {
+			break
+		}
+		time.Sleep(pause)
+	}
+	sc.mu.Lock()
+	pr.ClosedByReplicate, pr.ClosedByHarness, pr.Resumed = sc.byLib, sc.byHarness, sc.resumed
+	sc.mu.Unlock()
+	if len(pr.Left) == 0 {
+		// nobody else is using the connection any more
+		pr.RwcNil = v.c.rwc == nil
+		// The replication's state: only when replicate WAITED for its writer goroutine before it returned (the exit
+		// "error in reading resp" does; a drain that came to its end without an error does). After the other exits
+		// (drainRespsTimeout closing the connection on timeout / error) the writer has ended by now, too, but nothing
+		// orders its last writes before a read here: the race detector would (rightly, by its rules) report the hook.
+		readErrExit := (pr.Applied == "readErr" || pr.Applied == "readErr+held") && rep.End == "returned"
+		// (A run that never showed a pipelined request is reported as it always was.)
+		if readErrExit || (!pr.ClosedByReplicate && !pr.ClosedByHarness) || session == 0 {
+			pr.StValid = true
+			rep.St = v.State()
+		}
+	}
 	return rep
 }
 
